@@ -142,6 +142,44 @@ Theorem convergence_transparent :
 Proof. exact convergence_transparent_thm. Qed.
 Print Assumptions convergence_transparent.
 
+(* convergence_with_interrupted_runs: histories in which some run() calls RAISE while a later batch is prepared (failing
+   preprocess / selection function / reader).  [(c, None)] is a run() that completes, [(c, Some j)] one that raises while
+   its batch number j is prepared; [hist_rows] are the rows handed to update() over the whole history: an interrupted run
+   contributes exactly its first j batches, also to the convergence bookkeeping, and the columns appended before the failure
+   stay.  Then: processed_traces is the number of rows fed, the accumulators are ONE update with them, the points are
+   strictly increasing, Regular points at least a step apart, and every column is the score on the prefix of the rows fed. *)
+Theorem convergence_with_interrupted_runs :
+  forall (X M V D St O Sc : Type) (zero : St) (plus : St -> St -> St) (contrib : X * D -> St) (comp : St -> O),
+  (forall a b c : St, plus a (plus b c) = plus (plus a b) c) ->
+  (forall a : St, plus a zero = a) ->
+  (forall a : St, plus zero a = a) ->
+  forall (sf : M -> V) (model : V -> D) (disc : O -> Sc) (k : nat) (hs : list (container X M * option nat)),
+  1 <= k -> Forall (fun h => c_rows (fst h) <> [] /\ 1 <= c_bs (fst h)) hs ->
+  let st := hist_seq X M V D St O Sc zero plus contrib comp sf model disc (Some k) (fresh St O Sc zero) hs in
+  let rows := hist_rows X M V D sf model (Some k) hs in
+  processed st = length rows
+  /\ acc st = upd St (X * D) zero plus contrib zero rows
+  /\ StronglySorted lt (map fst (cols st))
+  /\ (forall l1 p l2, cols st = l1 ++ (p, Regular) :: l2 -> last_regular l1 + k <= p)
+  /\ Forall (fun p => p <= length rows) (map fst (cols st))
+  /\ conv st = map (fun p => disc (comp (upd St (X * D) zero plus contrib zero (firstn p rows)))) (map fst (cols st)).
+Proof. exact convergence_with_interrupted_runs_thm. Qed.
+Print Assumptions convergence_with_interrupted_runs.
+
+(* step 5, batch size 2 (derived batch size 2).  A (7 traces): batches end at 2, 4, 6 (Regular at 6), 7 (Remainder at 7).
+   B (9 traces) raises while its batch number 3 is prepared: it fed 3 batches = 6 rows, ending at 9, 11 (Regular: 11 - 6 >= 5), 13;
+   no final column, the marks stay [11; 13].  C (4 traces): 15, 17 (Regular: 17 - 11 >= 5), the run ends on a point. *)
+Example interrupted_history_example :
+  let hs := [(c08_container (7, 2), None); (c08_container (9, 2), Some 3); (c08_container (4, 2), None)] in
+  let st := hist_seq unit unit unit unit nat nat nat 0 Nat.add (fun _ => 1) (fun s => s) (fun m => m) (fun v => v) (fun o => o)
+              (Some 5) unit_fresh hs in
+  Forall (fun h : container unit unit * option nat => c_rows (fst h) <> [] /\ 1 <= c_bs (fst h)) hs
+  /\ processed st = 17
+  /\ cols st = [(6, Regular); (7, Remainder); (11, Regular); (17, Regular)]
+  /\ conv st = [6; 7; 11; 17]
+  /\ scores st = Some 17.
+Proof. split; [repeat constructor; discriminate|]. vm_compute. repeat split; reflexivity. Qed.
+
 (* non-vacuity: the row-counting accumulator (nat, +, 0) meets the laws; step 2 with container batch size 3 on 7 traces
    (derived batch size 2): Regular columns at 2, 4, 6 and a Remainder at 7; step 5, batch size 3, runs of 7 then 4
    traces (derived batch size 5): Regular at 5, Remainder at 7 closing the first run, Regular at 11 in the second run
@@ -188,7 +226,7 @@ Qed.
 Example c08_check_discriminates :
   let f x := Fin (Z.of_nat x) 0 in
   let mk comps ncols mk_marks pts convs prefix := {|
-    c8_step := 2; c8_runs := [(5, 2)]; c8_prec := F64; c8_width := 1;
+    c8_step := 2; c8_runs := [(5, 2)]; c8_fails := [None]; c8_obs_fed := [5]; c8_prec := F64; c8_width := 1;
     c8_obs_computes := comps; c8_obs_ncols := ncols; c8_obs_points := pts; c8_obs_marks := Some mk_marks; c8_obs_conv := convs;
     c8_obs_scores := [f 5]; c8_obs_results := [f 5];
     c8_prefix_scores := prefix; c8_plain_scores := [f 5]; c8_plain_results := [f 5] |} in
